@@ -19,7 +19,7 @@ namespace PvModel.MkrSend.Spec
 open PvModel
 
 /-- Question nodes that have a "Send denied" edge, by their id in the flowcharts
-(`isdm` has none; it is listed so that every outcome of the code has a node to point at). -/
+(`isdm` has none; it is listed so that the refusal of the code before ed45788f3 has a node to point at). -/
 inductive Node
   | qrc        -- top level: "Is there a restricted coin in the Amount?"           (yes → denied)
   | istaw      -- checkSenderMarker: "Does a Transfer Agent have withdraw access?"  (no → denied)
@@ -255,7 +255,8 @@ def DenomsAscending (amt : Coins) : Prop := amt.Pairwise fun a b => a.1 < b.1
 instance (amt : Coins) : Decidable (DenomsAscending amt) := by
   unfold DenomsAscending; infer_instance
 
-/-- No coin's marker address is occupied by a non-marker account (see finding C04-denom-address-squat). -/
+/-- No coin's marker address is occupied by a non-marker account (only used to relate the code before
+ed45788f3 to the current code; finding C04-denom-address-squat). -/
 def NoForeignAccountAtDenomAddr (cfg : Cfg) (amt : Coins) : Prop :=
   ∀ c ∈ amt, (cfg.acct (cfg.markerAddr c.1)).isOther = false
 
